@@ -150,7 +150,14 @@ def execute(case: dict[str, Any], abort_at: tuple[int, str] | None, abort_call: 
             out["exceptions"].append((step, f"OptimizationAborted({exc.exit_code.name}) escaped"))
             out["codes"].append((step, "escaped"))
 
-    scenario = case["scenario"]
+    scenario, _, late = case["scenario"].partition("/")  # '<scenario>/late-observer': a further observer is registered between the two steps
+
+    def add_late_observer() -> None:
+        if late:
+            for et in EventType:
+                ctx.add_observer(et, lambda e: ctl.deliver("o:2", e))
+            out["late_from"] = ctl.index + 1
+
     main = new_plan("main")
     if scenario in ("optimizer", "optimizer+evaluator", "evaluator+optimizer"):
         opt = main.add_step("optimizer")
@@ -171,10 +178,12 @@ def execute(case: dict[str, Any], abort_at: tuple[int, str] | None, abort_call: 
         out["after"] = ("main", extra, cfg)
     elif scenario == "optimizer+evaluator":
         run_step(main, opt, config=cfg)
+        add_late_observer()
         run_step(main, evs, config=cfg)
         out["after"] = None
     elif scenario == "evaluator+optimizer":
         run_step(main, evs, config=cfg)
+        add_late_observer()
         run_step(main, opt, config=cfg)
         out["after"] = None
     else:  # nested
@@ -237,7 +246,8 @@ def receivers_for(out: dict[str, Any], plan_tag: str, idx: int = 0) -> list[str]
         if tag == "inner" and out.get("inner_parent_from"):
             parent = [p for start, p in out["inner_parent_from"] if start <= idx][-1]
         tag = parent
-    return [*names, "o:0", "o:1"]
+    late = ["o:2"] if out.get("late_from") is not None and idx >= out["late_from"] else []
+    return [*names, "o:0", "o:1", *late]
 
 
 def check_run(case: dict[str, Any], out: dict[str, Any], aborting: bool, label: str) -> None:  # noqa: C901, FBT001, PLR0912, PLR0915
@@ -509,7 +519,7 @@ def hypothesis_shard(item: dict[str, Any]) -> Collector:
 
     @st.composite
     def cases(draw: Any) -> dict[str, Any]:  # noqa: ANN401
-        case = default_case(draw(st.sampled_from(["optimizer", "evaluator", "optimizer+evaluator", "evaluator+optimizer", "nested", "nested-reused", "nested-own-context", "nested-two-steps", "nested-bare-inner", "basic-optimizer"])),
+        case = default_case(draw(st.sampled_from(["optimizer", "evaluator", "optimizer+evaluator", "evaluator+optimizer", "optimizer+evaluator/late-observer", "evaluator+optimizer/late-observer", "nested", "nested-reused", "nested-own-context", "nested-two-steps", "nested-bare-inner", "basic-optimizer"])),
                             draw(st.sampled_from(["plain", "failures", "budget"])), draw(st.sampled_from(["slsqp", "nelder-mead"])))
         case["speculative"] = draw(st.booleans())
         case["x0"] = [draw(st.sampled_from([-1.0, 0.0, 0.4, 1.5])), draw(st.sampled_from([-0.3, 0.8]))]
@@ -530,7 +540,8 @@ def hypothesis_shard(item: dict[str, Any]) -> Collector:
 
 def shards(tier: str, seed: int) -> list[dict[str, Any]]:
     items: list[dict[str, Any]] = []
-    for scenario in ("optimizer", "evaluator", "optimizer+evaluator", "evaluator+optimizer", "nested", "nested-reused", "nested-own-context", "nested-two-steps", "nested-bare-inner", "basic-optimizer"):
+    for scenario in ("optimizer", "evaluator", "optimizer+evaluator", "evaluator+optimizer", "optimizer+evaluator/late-observer",
+                     "evaluator+optimizer/late-observer", "nested", "nested-reused", "nested-own-context", "nested-two-steps", "nested-bare-inner", "basic-optimizer"):
         for variant in ("plain", "failures", "budget"):
             for method in ("slsqp", "nelder-mead"):
                 for spec in ((False, True) if method == "slsqp" and tier != "quick" else (False,)):
